@@ -96,7 +96,7 @@ package retrypolicy
 //@   oncall getFixedOrRandomDelay: g := e.lastDelay
 //@   ensures [C13.delay.nonnegative] result >= 0
 //@   ensures [C13.delay.maxduration] e.maxDuration != 0 ==> result <= max(0, e.maxDuration - el)
-//@   ensures [C13.delay.func_used] useFunc && e.jitter == 0 && e.jitterFactor == 0 ==> result == max(0, ite(e.maxDuration != 0, min(computed, e.maxDuration - el), computed))
+//@   ensures [C13.delay.func_used+C18.retry_after.not_capped_by_backoff] useFunc && e.jitter == 0 && e.jitterFactor == 0 ==> result == max(0, ite(e.maxDuration != 0, min(computed, e.maxDuration - el), computed))
 //@   ensures [C13.delay.func_keeps_backoff_state] useFunc ==> e.lastDelay == old(e.lastDelay)
 //@   ensures [C13.delay.no_jitter_accumulation] !useFunc ==> e.lastDelay == g
 //@   ensures [C13.delay.state_inv] e.Delay != 0 ==> e.lastDelay == 0 || (0 < e.lastDelay && (e.maxDelay != 0 ==> e.lastDelay <= e.maxDelay))
@@ -163,7 +163,7 @@ package retrypolicy
 //@ func (*retryPolicy).ToExecutor
 //@   requires rp != nil && rp.config != nil
 //@   let x := asref(result, *executor)
-//@   ensures [C02.fresh_executor] typeis(result, *executor) && fresh(x) && x.failedAttempts == 0 && !x.retriesExceeded && x.lastDelay == 0 && x.retryPolicy == rp && fresh(x.BaseExecutor) && x.BaseExecutor.BaseFailurePolicy == rp.BaseFailurePolicy && typeis(x.Executor, *executor) && asref(x.Executor, *executor) == x
+//@   ensures [C02.fresh_executor+C13.executor_starts_without_backoff_state] typeis(result, *executor) && fresh(x) && x.failedAttempts == 0 && !x.retriesExceeded && x.lastDelay == 0 && x.retryPolicy == rp && fresh(x.BaseExecutor) && x.BaseExecutor.BaseFailurePolicy == rp.BaseFailurePolicy && typeis(x.Executor, *executor) && asref(x.Executor, *executor) == x
 //@   modifies nothing
 
 // Environment (assumed here; proved for the real *execution in package failsafe)
